@@ -7,6 +7,7 @@ import (
 	"fmt"
 	"os"
 	"sort"
+	"strconv"
 	"strings"
 	"time"
 
@@ -110,7 +111,13 @@ func main() {
 					fmt.Fprintf(w, "GOPANIC %v\n", r)
 				}
 			}()
-			ctx, cancel := context.WithTimeout(context.Background(), 500*time.Millisecond)
+			budget := 500 * time.Millisecond
+			if v := os.Getenv("EVALOBS_TIMEOUT_MS"); v != "" {
+				if ms, err := strconv.Atoi(v); err == nil && ms > 0 {
+					budget = time.Duration(ms) * time.Millisecond
+				}
+			}
+			ctx, cancel := context.WithTimeout(context.Background(), budget)
 			defer cancel()
 			var trace []string
 			printFn := object.NewBuiltin("print", func(ctx context.Context, args ...object.Object) object.Object {
